@@ -122,8 +122,11 @@ func classify(c Case) core.Class {
 	o := observed(c)
 	var cl core.Class
 	mut := "none"
-	if len(c.Mut) > 0 {
-		mut = c.Mut[0]
+	for _, m := range c.Mut {
+		if !isZooLabel(m) { // (labels of the white space zoo are not mutations)
+			mut = m
+			break
+		}
 	}
 	cl.Labels = append(cl.Labels, "entry:"+c.Entry, "gen:"+c.Gen, "len:"+lenBucket(len(c.input())))
 	for _, m := range c.Mut {
@@ -131,9 +134,13 @@ func classify(c Case) core.Class {
 			cl.Labels = append(cl.Labels, m) // classes of the directive family
 			continue
 		}
+		if isZooLabel(m) {
+			cl.Labels = append(cl.Labels, m) // classes of the white space zoo
+			continue
+		}
 		cl.Labels = append(cl.Labels, "mut:"+m)
 	}
-	if len(c.Mut) == 0 {
+	if mut == "none" {
 		cl.Labels = append(cl.Labels, "mut:none")
 	}
 	if o.hasErr {
@@ -158,6 +165,7 @@ func classify(c Case) core.Class {
 		cl.Labels = append(cl.Labels, "leading-bom")
 	}
 	sort.Strings(cl.Labels)
+	zooCount(cl.Labels)
 	cl.NonTrivial = o.interesting
 	he := "ok"
 	if o.hasErr {
@@ -188,6 +196,20 @@ func classify(c Case) core.Class {
 		cl.Fingerprint = strings.Join([]string{c.Entry, c.Gen, mut, cont, rec, he}, "|")
 		return cl
 	}
+	if c.Gen == "wszoo" {
+		// (entry point, construct in focus, zoo characters placed or not, has-errors)
+		focus, placed := "", "blank-only"
+		for _, m := range c.Mut {
+			if strings.HasPrefix(m, "focus:") {
+				focus = m
+			}
+			if m == "ws:zoo" {
+				placed = "zoo"
+			}
+		}
+		cl.Fingerprint = strings.Join([]string{c.Entry, c.Gen, focus, placed, he}, "|")
+		return cl
+	}
 	cl.Fingerprint = strings.Join([]string{c.Entry, c.Gen, mut, lenBucket(len(c.Src)), he}, "|")
 	return cl
 }
@@ -207,7 +229,7 @@ func TestC17a(t *testing.T) {
 	tmPrefix = "a_"
 	core.Run(t, core.Spec[Case]{
 		Property: "C17", Sub: "a",
-		Rule: "inputs: random bytes (biased to scanner-relevant characters), grammar-generated native config/expression/template/traversal/JSON text, and the repo's own corpora (hclsyntax/fuzz, hclwrite/fuzz, json/fuzz, specsuite, profiles/*.yaotl), plus a template-directive family (well-formed if/else/endif/for/in/endfor directives and their near-misses: keyword followed by keyword/identifier such as `else if x`, missing/duplicated keyword, keyword in the wrong block, two-variable for with junk at every position, unknown keywords elif/elseif/elsif/end, nests cut at every token boundary, strip markers; nested to depth 3; in quoted strings, heredocs, bare templates and JSON strings; optionally after an earlier syntax error so that the parser is in recovery mode), then 0-3 mutations out of flip/delete/dup/repeat/insert-token/truncate/bad-UTF-8/BOM/CRLF/splice; 12% of cases feed one syntax to another entry point; size <= 16 KiB quick / 256 KiB thorough. Entry points: hclsyntax.ParseConfig/ParseExpression/ParseTemplate/ParseTraversalAbs/LexConfig/LexExpression/LexTemplate, json.Parse/ParseExpression, hclwrite.ParseConfig. Oracle: no panic, returns within 30 s, token stream covers the input (ascending, no overlap, Bytes == src[range], gaps only space/tab in main mode and none in template modes, leading BOM, EOF at len; line numbers = 1 + preceding newlines for well-formed UTF-8 input), every node/traversal/diagnostic range inside the input with Start<=End, children inside parents, and with no error diagnostic evaluation (nil/empty/populated context), JustAttributes, hcldec.Decode (derived permissive spec + fixed spec) and gohcl.DecodeBody (remain) do not panic. Non-trivial: the input got past the lexer with >=1 token other than EOF/Newline/Invalid/BadUTF8 (JSON: first non-blank byte can start a value). distinct = (entry point, generator class, first mutation, length bucket, has-errors)",
+		Rule: "inputs: random bytes (biased to scanner-relevant characters), grammar-generated native config/expression/template/traversal/JSON text, and the repo's own corpora (hclsyntax/fuzz, hclwrite/fuzz, json/fuzz, specsuite, profiles/*.yaotl), plus a template-directive family (well-formed if/else/endif/for/in/endfor directives and their near-misses: keyword followed by keyword/identifier such as `else if x`, missing/duplicated keyword, keyword in the wrong block, two-variable for with junk at every position, unknown keywords elif/elseif/elsif/end, nests cut at every token boundary, strip markers; nested to depth 3; in quoted strings, heredocs, bare templates and JSON strings; optionally after an earlier syntax error so that the parser is in recovery mode), then 0-3 mutations out of flip/delete/dup/repeat/insert-token/truncate/bad-UTF-8/BOM/CRLF/splice/white-space-zoo; 12% of cases feed one syntax to another entry point; size <= 16 KiB quick / 256 KiB thorough. Entry points: hclsyntax.ParseConfig/ParseExpression/ParseTemplate/ParseTraversalAbs/LexConfig/LexExpression/LexTemplate, json.Parse/ParseExpression, hclwrite.ParseConfig. Oracle: no panic, returns within 30 s, token stream covers the input (ascending, no overlap, Bytes == src[range], gaps only space/tab in main mode and none in template modes, leading BOM, EOF at len; line numbers = 1 + preceding newlines for well-formed UTF-8 input), every node/traversal/diagnostic range inside the input with Start<=End, children inside parents, and with no error diagnostic evaluation (nil/empty/populated context), JustAttributes, hcldec.Decode (derived permissive spec + fixed spec) and gohcl.DecodeBody (remain) do not panic. Non-trivial: the input got past the lexer with >=1 token other than EOF/Newline/Invalid/BadUTF8 (JSON: first non-blank byte can start a value). distinct = (entry point, generator class, first mutation, length bucket, has-errors). White space zoo (gen:wszoo, 9% of cases; also switched on at 5-30% in 15% of the plain grammar cases, in one directive-family case in five, and as mutation wszoo on any base): at every position where the grammar allows or tolerates blanks - around `=`, after `{`, before `}`, line starts and line ends, block labels, before and after the heredoc OPENING marker, heredoc body indentation and line ends, before and after the heredoc CLOSING marker (<<ID and <<-ID, indented or not), inside `${ }` and `%{ }` (also of templates inside JSON strings, raw or escaped), between call arguments, inside brackets/parentheses, around operators and `? :`, in for clauses, between traversal steps, between JSON tokens - a run (one character, 2-4 mixed or repeated, or 5-40) drawn from {space, tab, FF, VT, lone CR, U+0085, U+00A0, U+1680, U+2003, U+2028, U+2029, U+3000, U+FEFF, U+200B} stands instead of the blanks; one construct is in focus per case (attribute, block, one-line block, heredoc, flush heredoc, heredoc in a block, interpolation, directive, call, object, tuple, for, conditional, traversal, JSON) with the zoo at 15-100% of its positions; the mutation picks its 1-3 positions by category (line end, line start, `=`, braces, template sequence delimiters, brackets/commas, an existing blank run, heredoc opening/closing marker lines found in the text). No acceptance is expected of these characters (most yield Invalid tokens and diagnostics): the oracle is unchanged - in particular tokens must tile the input with gaps of exactly what the scanner's main machine skips (space, tab) and no gaps in the template machines. Labels ws:zoo, focus:*, wsat:<position>, wsch:<character> (complete counts in extra a_wszoo_label_counts_last_shard); distinct for gen:wszoo = (entry point, construct in focus, zoo placed, has-errors)",
 		Gen:   genCase, Check: check, Classify: classify,
 		Assumptions: assumptions,
 	})
